@@ -26,6 +26,7 @@ type upStep struct {
 	Cand int
 	Pkt  string // probe | pingOther | pong | message | upgrade | noop | garbage
 	D    time.Duration
+	N    int // conformant upgrades: further polls the client issues after the first release, before its upgrade packet
 }
 
 func (s upStep) String() string {
@@ -37,9 +38,9 @@ func (s upStep) String() string {
 	case "drop":
 		return fmt.Sprintf("drop#%d", s.Cand)
 	case "conformant", "probeEarly":
-		return fmt.Sprintf("%s(%s)", s.Kind, s.Tr)
+		return fmt.Sprintf("%s(%s,repoll=%d)", s.Kind, s.Tr, s.N)
 	case "conformantLatePoll":
-		return fmt.Sprintf("conformantLatePoll(%s,+%v)", s.Tr, s.D)
+		return fmt.Sprintf("conformantLatePoll(%s,+%v,repoll=%d)", s.Tr, s.D, s.N)
 	case "toTimeout":
 		return fmt.Sprintf("toTimeout#%d(%+v)", s.Cand, s.D)
 	case "advance":
@@ -103,6 +104,7 @@ func genC08(rt *rapid.T, gates bool, knownProbe bool, col *Collector) upCase {
 		case "conformant", "probeEarly", "conformantLatePoll":
 			st.Tr = rapid.SampledFrom(trs).Draw(rt, l+".tr")
 			st.D = time.Duration(rapid.SampledFrom([]int{0, 50, 100, 150, 250, 1000}).Draw(rt, l+".late")) * time.Millisecond
+			st.N = rapid.SampledFrom([]int{0, 0, 1, 2}).Draw(rt, l+".repoll")
 			ncand++
 		case "pkt":
 			st.Cand = rapid.IntRange(0, ncand-1).Draw(rt, l+".cand")
@@ -371,6 +373,7 @@ func runC08(c upCase) (fail string, stats map[string]bool) {
 	}
 
 	latePoll := time.Duration(-1)
+	rePolls := 0
 	conformant := func(tr string, early bool) string {
 		if uw.sessClosed {
 			return ""
@@ -464,6 +467,24 @@ func runC08(c upCase) (fail string, stats map[string]bool) {
 		if f := uw.pumpDown(); f != "" {
 			return f
 		}
+		// a client that handled the poll response before the probe pong polls again: every poll that becomes
+		// pending during the attempt is released, not only the first one
+		for k := 0; k < rePolls; k++ {
+			pc.StartPoll()
+			Settle()
+			for i := 0; i < 4 && pc.Poll != nil; i++ {
+				time.Sleep(100 * time.Millisecond)
+				Settle()
+				pc.Pump()
+			}
+			if pc.Poll != nil {
+				return fmt.Sprintf("conformant %s candidate: poll #%d issued during the upgrade attempt was not released within 400ms", tr, k+2)
+			}
+			stats["poll-again-during-upgrade"] = true
+			if f := uw.pumpDown(); f != "" {
+				return f
+			}
+		}
 		cand.send(ctl(tUpgrade))
 		Settle()
 		cand.isUp = true
@@ -488,15 +509,17 @@ func runC08(c upCase) (fail string, stats map[string]bool) {
 				}
 			}
 		case "conformant":
+			rePolls = st.N
 			if f := conformant(st.Tr, false); f != "" {
 				return what + ": " + f, stats
 			}
 		case "probeEarly":
+			rePolls = st.N
 			if f := conformant(st.Tr, true); f != "" {
 				return what + ": " + f, stats
 			}
 		case "conformantLatePoll":
-			latePoll = st.D
+			latePoll, rePolls = st.D, st.N
 			if f := conformant(st.Tr, false); f != "" {
 				return what + ": " + f, stats
 			}
@@ -707,7 +730,7 @@ func runC08(c upCase) (fail string, stats map[string]bool) {
 
 func TestC08Upgrade(t *testing.T) {
 	col := NewCollector("TestC08Upgrade",
-		"rapid: a polling session (revision 3/4) and 2-12 steps: open a websocket/webtransport candidate for the session's own, an unknown or a closed sid (also while another candidate is being entertained or after an upgrade), send on a candidate one of {probe ping, other ping, pong, message, upgrade, noop, undecodable frame}, drop a candidate, advance to a candidate's upgrade timeout -1ms/0/+1ms, a complete conformant upgrade (probe, wait for the probe pong, wait for the pending poll to be released, upgrade), application sends, client messages, polls, time advances, Close(true) of the session; gated variant: the client's probe arrives while the server sits between creating the candidate transport and attaching its listeners; oracle (reference model of the statement): the transport name changes only when an own-sid candidate sent upgrade, at most once; Upgrading() is true exactly while a candidate is entertained; refused/failed/timed-out candidates are closed by the server and nothing else is; the session never closes; messages in both directions are delivered in order exactly once across the switch; afterwards a conformant upgrade still succeeds and traffic flows. non-trivial: a script that reaches the probe and then fails, or application messages carried across a switch").Use(t)
+		"rapid: a polling session (revision 3/4) and 2-12 steps: open a websocket/webtransport candidate for the session's own, an unknown or a closed sid (also while another candidate is being entertained or after an upgrade), send on a candidate one of {probe ping, other ping, pong, message, upgrade, noop, undecodable frame}, drop a candidate, advance to a candidate's upgrade timeout -1ms/0/+1ms, a complete conformant upgrade (probe, wait for the probe pong, wait for the pending poll to be released, optionally poll again 1-2 times and wait for each release, upgrade), application sends, client messages, polls, time advances, Close(true) of the session; gated variant: the client's probe arrives while the server sits between creating the candidate transport and attaching its listeners; oracle (reference model of the statement): the transport name changes only when an own-sid candidate sent upgrade, at most once; Upgrading() is true exactly while a candidate is entertained; refused/failed/timed-out candidates are closed by the server and nothing else is; the session never closes; messages in both directions are delivered in order exactly once across the switch; afterwards a conformant upgrade still succeeds and traffic flows. non-trivial: a script that reaches the probe and then fails, or application messages carried across a switch").Use(t)
 	knownProbe := isKnown("C08", sigProbeLost)
 	for _, gated := range []bool{false, true} {
 		rapid.Check(t, func(rt *rapid.T) {
@@ -733,7 +756,7 @@ func TestC08Upgrade(t *testing.T) {
 			}
 		})
 	}
-	req := []string{"conformant-upgrade.websocket", "conformant-upgrade.webtransport", "candidate-refused.unknown", "candidate-refused.closed", "second-candidate-or-already-upgraded", "candidate-failed.unexpected-packet", "candidate-failed.drop", "candidate-failed.timeout", "upgrade-after-probe", "later-upgrade-succeeds", "session-closed-mid-history"}
+	req := []string{"conformant-upgrade.websocket", "conformant-upgrade.webtransport", "candidate-refused.unknown", "candidate-refused.closed", "second-candidate-or-already-upgraded", "candidate-failed.unexpected-packet", "candidate-failed.drop", "candidate-failed.timeout", "upgrade-after-probe", "later-upgrade-succeeds", "session-closed-mid-history", "poll-again-during-upgrade", "poll-arrives-after-the-probe"}
 	if !knownProbe {
 		req = append(req, "probe-before-listeners")
 	}
